@@ -273,7 +273,9 @@ impl G<'_, '_> {
                 7 => {
                     let h = self.t.pick(4) as u8;
                     let val = self.src(VMOD);
-                    if self.t.pick(100) < self.pf.specify_any_pct { Op::SpecifyAny { h, val } } else { Op::Specify { h, val } }
+                    // inside a function on a struct the only struct at hand is the argument, which
+                    // the *caller* created: specifying it must be rejected
+                    if special || self.t.pick(100) < self.pf.specify_any_pct { Op::SpecifyAny { h, val } } else { Op::Specify { h, val } }
                 }
                 8 => Op::Intern { ty: self.t.weighted(&self.pf.sym_types) as u8, x: self.src(self.pf.sym_dom) },
                 9 => Op::SymField { h: self.t.pick(4) as u8 },
@@ -335,6 +337,19 @@ pub fn gen_program(t: &mut Tape, pf: &Profile) -> Program {
     let on_ent_spec = g.ops(n2, base, false, true, 0);
     let n3 = 1 + g.t.pick(3);
     let on_sym = g.ops(n3, base, false, true, 0);
+    // only `on_ent` may try to specify its argument (a specifiable function specifying its own key
+    // from inside its own execution is not a scenario the property talks about)
+    fn strip(ops: Vec<Op>) -> Vec<Op> {
+        ops.into_iter()
+            .map(|o| match o {
+                Op::SpecifyAny { .. } | Op::Specify { .. } => Op::Read { slot: 0, field: 0 },
+                Op::If { slot, field, thr, then, els } => Op::If { slot, field, thr, then: strip(then), els: strip(els) },
+                o => o,
+            })
+            .collect()
+    }
+    let on_ent_spec = strip(on_ent_spec);
+    let on_sym = strip(on_sym);
     let coarse_hash = pf.coarse_hash_pct > 0 && g.t.pick(100) < pf.coarse_hash_pct;
     Program { slots, cells, nodes, base: base as u8, on_ent, on_ent_spec, on_sym, lattice: false, coarse_hash }
 }
